@@ -11,15 +11,20 @@ CFG = {
                           "RpmVerif.C06.readback_file_entries_tbl", "RpmVerif.C06.readback_file_entries",
                           "RpmVerif.C06.entryOf_path_cpio", "RpmVerif.C06.readback_file_entries_build",
                           "RpmVerif.C06.readback_file_entries_reparsed",
+                          "RpmVerif.C06.dep_ctor_spec", "RpmVerif.C06.dep_ctor_defined", "RpmVerif.C06.builder_ctors_in_table",
+                          "RpmVerif.C06.dep_ctor_flags_readback", "RpmVerif.C06.dep_ctor_table_standard",
                           "RpmVerif.Pipeline.build_file_entries", "RpmVerif.Pipeline.build_file_entries_reparsed",
                           "RpmVerif.Pipeline.built_history_file_entries", "RpmVerif.Pipeline.built_package_sound"],
-    "trivial_branches": ["build-rejected"],
+    "trivial_branches": ["build-rejected", "ctor-names"],
     "rule": "seeded builder configurations through the real PackageBuilder (source files written to a scratch dir with chosen mode and mtime, "
             "clock pinned through the rpm_verif hook): any subset of optional fields; strings from {empty, ASCII, multi-line, tabs, multi-byte, quotes}; "
             "0..6 files at depth 0..4 incl. directly under '/', '/'- and './'-style and doubled-separator destinations, explicit modes (regular, dir, "
             "symlink, all 12 permission bits) and inherited modes, non-root owners, file flags, capabilities, verify flags, mtimes before/after the source "
             "date; dependencies of all eight kinds; all nine scriptlets with/without flags and interpreters (incl. empty list); changelog; every "
-            "compression type and level. Observable: fnv of lead / signature header / main header bytes (predicted byte for byte by the model), "
+            "compression type and level. Plus the 14 public Dependency constructors (op dep): every constructor under every one of the eight builder methods, and every constructor over "
+            "names {empty, ASCII, parentheses, blank, multi-byte} × versions with the method rotating — constructed value and the value read back from the built, "
+            "written and re-parsed package, against the constructor table scraped from src/rpm/headers/types.rs (op depctors: the harness calls every constructor in it). "
+            "Observable: fnv of lead / signature header / main header bytes (predicted byte for byte by the model), "
             "reparse equality, and the full accessor dump judged against the request by the spec. Non-trivial = build succeeded; distinct = distinct requests.",
     "exhaustive": False,
     "shards": {"quick": 4, "thorough": 16},
@@ -39,7 +44,9 @@ CFG = {
                   "LONGFILESIZES), flags, SHA-256 digest, capabilities and link target, and [] for a package without files; the same holds on the written "
                   "and re-parsed package (readback_file_entries_reparsed, Pipeline.build_file_entries_reparsed) and after any sign / clear / write + "
                   "re-parse history (Pipeline.built_history_file_entries); hypotheses: every file's directory is registered and every digest text is "
-                  "empty or 64 characters (both guaranteed by add_data). The model predicts the emitted "
+                  "empty or 64 characters (both guaranteed by add_data). A dependency made by any public Dependency constructor (table regenerated from the "
+                  "source) reads back, under each of the eight kinds, with the constructor's wrapped name, the version and exactly the table's flags "
+                  "(dep_ctor_flags_readback; the constructors the builder calls itself are rows of that table: builder_ctors_in_table; the table's rows are rpm's RPMSENSE meanings of the constructor names: dep_ctor_table_standard). The model predicts the emitted "
                   "lead, signature header and main header byte for byte on every generated configuration.",
     "level_note": "Trusted: Lean kernel; model fidelity as exercised (byte-exact header prediction per case); compressors / SHA-256 crates; "
                   "add_data's path handling is C17's model. get_file_entries' composition is a theorem (readback_file_entries) and is also exercised by the correspondence.",
